@@ -273,6 +273,19 @@ func genC04(g *Gen) {
 		g.bin2("Min", x, y)
 		g.bin2("Max", y, x)
 	})
+	g.bitGrid(0.06, func(x d128.Decimal) {
+		g.un("IsZero", x)
+		g.un("Sign", x)
+		z := mk(g.r.Intn(2) == 0, new(big.Int), randExp(g.r))
+		g.bin2("Cmp", z, x)
+		g.bin2("Cmp", x, z)
+		g.bin2("CmpAbs", z, x)
+		g.bin2("Equal", z, x)
+		g.bin2("Compare", z, x)
+		g.bin2("Max", z, x)
+		g.bin2("Min", x, z)
+		g.bin2("Equal", x, g.variant(x))
+	})
 	g.wordCmpGrid(0.1, func(x, y d128.Decimal) {
 		g.bin2("Cmp", x, y)
 		g.bin2("Cmp", y, x)
